@@ -73,6 +73,26 @@ func (s *Sim) takeWatches(what string, txn statedb.ReadTxn, t *simTable, m *Tabl
 	if len(probes) > n {
 		probes = probes[:n]
 	}
+	s.takeWatchProbes(what, txn, t, m, fresh, inTxn, probes)
+	if s.Failed {
+		return
+	}
+	if s.Rng.IntN(3) == 0 {
+		_, ch := t.tbl.AllWatch(txn)
+		w := &simWatch{ch: ch, t: t, p: Probe{Index: "id", Kind: "all"}, origin: what, inTxn: inTxn}
+		if inTxn == "" {
+			w.base, w.baseSeq = m, expSeq(m, w.p)
+		}
+		s.Logf("%s watch %s.all", what, t.name)
+		s.retainWatch(w, fresh || inTxn != "")
+	}
+}
+
+// takeWatchProbes retains the watch channels of the given queries.
+func (s *Sim) takeWatchProbes(what string, txn statedb.ReadTxn, t *simTable, m *TableModel, fresh bool, inTxn string, probes []Probe) {
+	if s.O.Watches == 0 || s.Failed {
+		return
+	}
 	for _, p := range probes {
 		obs, ch := p.run(txn, t.tbl)
 		if d := m.check(p, obs); d != "" {
@@ -84,15 +104,6 @@ func (s *Sim) takeWatches(what string, txn statedb.ReadTxn, t *simTable, m *Tabl
 			w.base, w.baseSeq = m, expSeq(m, p)
 		}
 		s.Logf("%s watch %s.%s", what, t.name, p)
-		s.retainWatch(w, fresh || inTxn != "")
-	}
-	if s.Rng.IntN(3) == 0 {
-		_, ch := t.tbl.AllWatch(txn)
-		w := &simWatch{ch: ch, t: t, p: Probe{Index: "id", Kind: "all"}, origin: what, inTxn: inTxn}
-		if inTxn == "" {
-			w.base, w.baseSeq = m, expSeq(m, w.p)
-		}
-		s.Logf("%s watch %s.all", what, t.name)
 		s.retainWatch(w, fresh || inTxn != "")
 	}
 }
